@@ -66,6 +66,10 @@ type c11Op struct {
 	Ret    int64  `json:"ret_ns"`
 	OK     bool   `json:"ok"` // set: acknowledged; fetch: a value was returned
 	Err    string `json:"err,omitempty"`
+	// Refused (sets only): the API reported, before the call's deadline, that
+	// the cursors partition refused the message (c11Refusal): such a set never
+	// takes effect.  Every other failed set stays open (unknown outcome).
+	Refused string `json:"refused,omitempty"`
 	Phase  string `json:"phase"`
 	Node   string `json:"node"`
 }
@@ -136,6 +140,7 @@ type c11Env struct {
 	leaderChanges  int
 	fetchErrConc   int64
 	setUnknown     int64
+	setRefused     int64
 }
 
 func (e *c11Env) step(format string, a ...interface{}) {
@@ -176,8 +181,35 @@ func (e *c11Env) timeout() time.Duration {
 	return c11OpTimeout
 }
 
+// c11Refusal recognises the errors with which SetCursor reports that the
+// cursors partition REFUSED the cursor message, i.e. that the leader (or the
+// publish precondition check in front of it) decided not to append it: the
+// negative acks Ack_TOO_LARGE / Ack_ENCRYPTION / Ack_INCORRECT_OFFSET as the
+// API words them (api.go convertAckError) and the read-only precondition.
+// Anything else (deadline, cancellation, transport) is an unknown outcome.
+func c11Refusal(err error) string {
+	msg := err.Error()
+	switch {
+	case strings.Contains(msg, "message exceeds max replication size"):
+		return "too-large"
+	case strings.Contains(msg, "encryption failed on partition"):
+		return "encryption"
+	case strings.Contains(msg, "incorrect expected offset"):
+		return "incorrect-offset"
+	case strings.Contains(msg, "readonly partition"):
+		return "readonly"
+	}
+	return ""
+}
+
 func (e *c11Env) doSet(n *vfNode, cl int, k c11Key, phase string) c11Op {
-	v := atomic.AddInt64(&e.val, 1)
+	return e.doSetOpt(n, cl, k, phase, 0, e.timeout())
+}
+
+// doSetOpt: add is added to the unique value (a large offset makes the cursor
+// message a few bytes longer), timeout is the deadline of this one call.
+func (e *c11Env) doSetOpt(n *vfNode, cl int, k c11Key, phase string, add int64, timeout time.Duration) c11Op {
+	v := atomic.AddInt64(&e.val, 1) + add
 	op := c11Op{Client: cl, Kind: "set", Key: k.String(), Val: v, Phase: phase, Node: n.ID}
 	srv := n.Server()
 	if srv == nil {
@@ -185,17 +217,25 @@ func (e *c11Env) doSet(n *vfNode, cl int, k c11Key, phase string) c11Op {
 		op.Ret, op.Err = c11Open, "node down"
 		return e.record(op)
 	}
-	ctx, cancel := context.WithTimeout(context.Background(), e.timeout())
+	ctx, cancel := context.WithTimeout(context.Background(), timeout)
 	op.Call = c11Now()
 	_, err := srv.api.SetCursor(ctx, &client.SetCursorRequest{Stream: k.Stream, Partition: k.Part, CursorId: k.ID, Offset: v})
 	op.Ret = c11Now()
+	expired := ctx.Err() != nil
 	cancel()
 	if err != nil {
-		// A set that failed or timed out may still take effect later: it
-		// stays open to the end of the history.
 		op.Err = err.Error()
-		op.Ret = c11Open
-		atomic.AddInt64(&e.setUnknown, 1)
+		if why := c11Refusal(err); why != "" && !expired {
+			// refused by the cursors partition: reported as failed, and it
+			// must never take effect
+			op.Refused = why
+			atomic.AddInt64(&e.setRefused, 1)
+		} else {
+			// A set that failed or timed out may still take effect later: it
+			// stays open to the end of the history.
+			op.Ret = c11Open
+			atomic.AddInt64(&e.setUnknown, 1)
+		}
 	} else {
 		op.OK = true
 	}
@@ -253,6 +293,9 @@ func c11Judge(keyOps []c11Op, valKey map[int64]string, f c11Op) (kind, what stri
 				return "other-key-value", fmt.Sprintf("fetch of %s returned %d, which was only ever set for the different cursor %s", f.Key, f.Val, k)
 			}
 			return "never-set-value", fmt.Sprintf("fetch of %s returned %d, which no SetCursor ever passed", f.Key, f.Val)
+		}
+		if src.Refused != "" {
+			return "refused-set-value", fmt.Sprintf("fetch of %s [%s, seq %d] returned %d, the offset of SetCursor seq %d, which had FAILED: the API reported that the cursors partition refused it (%s: %s)", f.Key, f.Phase, f.Seq, f.Val, src.Seq, src.Refused, src.Err)
 		}
 		if src.Call > f.Ret {
 			return "future-value", fmt.Sprintf("fetch of %s returned %d before the SetCursor passing it was called", f.Key, f.Val)
@@ -369,8 +412,12 @@ func (e *c11Env) fingerprint(kind, phase string) string {
 	if kind == "stale-refill" {
 		kind = "stale"
 	}
+	if kind == "refused-set-value" {
+		// one defect, one fingerprint, wherever the value of the failed set shows up
+		return "C11:value-of-refused-set-returned"
+	}
 	fp := "C11:" + kind + "-" + c11Context(phase)
-	if strings.HasPrefix(phase, "close-during-compaction") || strings.HasPrefix(phase, "keys-") {
+	if strings.HasPrefix(phase, "close-during-compaction") || strings.HasPrefix(phase, "keys-") || strings.HasPrefix(phase, "refused") {
 		return fp // scenario units: the context names the schedule / input class
 	}
 	if e.cfg.CacheOff {
@@ -500,7 +547,30 @@ func (e *c11Env) violation(kind, phase, what string, key string, seq int) {
 	if havePend {
 		w["cursors_log_when_observed"] = pend.dump
 	}
-	e.rep.Violation(fp, what+" ["+e.cfg.sig()+"]", w)
+	e.rep.Violation(fp, c11Abbrev(what)+" ["+e.cfg.sig()+"]", w)
+}
+
+// c11Abbrev shortens the padding of the long cursor ids / stream names of the
+// refused unit in messages ("xxxx…" -> "x*412"); witnesses keep the full keys.
+func c11Abbrev(s string) string {
+	var sb strings.Builder
+	for i := 0; i < len(s); {
+		j := i
+		for j < len(s) && s[j] == 'x' {
+			j++
+		}
+		if j-i > 16 {
+			fmt.Fprintf(&sb, "x*%d", j-i)
+			i = j
+			continue
+		}
+		if j == i {
+			j = i + 1
+		}
+		sb.WriteString(s[i:j])
+		i = j
+	}
+	return sb.String()
 }
 
 // c11WireKey is the key under which the server files the cursor.
@@ -509,7 +579,10 @@ func c11WireKey(key string) []byte {
 	if len(parts) != 3 {
 		return nil
 	}
-	return []byte(fmt.Sprintf("%s,%s,%s", parts[0], parts[1], parts[2]))
+	// the documented key: separator and escape character escaped in the id
+	// and the stream name (witness / attribution only, never a verdict)
+	esc := strings.NewReplacer("\\", "\\\\", ",", "\\,")
+	return []byte(fmt.Sprintf("%s,%s,%s", esc.Replace(parts[0]), esc.Replace(parts[1]), parts[2]))
 }
 
 // hwInSparseSegment reports whether, on some running node, the HW of the
